@@ -33,7 +33,9 @@ class EASRadio:
             + losDist * losDist
             - 2 * losDist * lenDec * np.cos(exitView)
         )
-        ang = np.arcsin(np.sqrt(s2phi))
+        # rounding can put s2phi a few ulp above 1 when the decay point is the
+        # foot of the perpendicular from the detector (lenDec == losDist * cos(exitView))
+        ang = np.arcsin(np.sqrt(np.clip(s2phi, 0.0, 1.0)))
         return ang
 
     @decorators.nss_result_store("EFields")
